@@ -203,6 +203,23 @@ CHECK_DEADLOCK FALSE
 """
 
 
+def run_sigma(ctx, args, binary):
+    """The sigma driver runs library code that starts goroutines of its own (deniable verifiers) and runs verifications
+    concurrently; a panic inside such a goroutine cannot be recovered by the harness and kills the process with a Go
+    crash trace. A crash whose trace runs through the library is reported as a violation (stable key), not as exit 2."""
+    try:
+        return ctx.run_vh("sigma", args, binary=binary)
+    except Broken as e:
+        msg = str(e)
+        if "goroutine " in msg and "go.dedis.ch/kyber/v4/proof" in msg:
+            ctx.violations.append({"key": "C14/all/concurrent/crash-in-library-goroutine",
+                                   "what": "the process running provers / verifiers of package proof (several in flight, made from equal or "
+                                           "shared Predicate values) dies with a Go crash trace through the library",
+                                   "detail": {"trace_tail": msg[-2500:]}, "driver": "sigma", "args": [str(a) for a in args]})
+            return None
+        raise
+
+
 def c14(ctx):
     q = ctx.quick
     b = vh(ctx)
@@ -245,18 +262,18 @@ def c14(ctx):
         jobs += [ex("sat", 5, both, "C14_sat_wraps"), ex("mut", 4, both, "C14_mut_wraps")]
     outs = par(ctx, jobs)
     tr = os.path.join(ctx.tmp, "sigma_ctx_calls.ndjson")
-    ctx.run_vh("sigma", ["-in", outs[0], "-max", 4000 if q else 40000, "-deniable", 5 if q else 4, "-trace", tr, "-tracemax", 150 if q else 2000], binary=b)
-    ctx.run_vh("sigma", ["-in", outs[1], "-max", 4000 if q else 40000, "-deniable", 5 if q else 4], binary=b)
+    run_sigma(ctx, ["-in", outs[0], "-max", 4000 if q else 40000, "-deniable", 5 if q else 4, "-trace", tr, "-tracemax", 150 if q else 2000], b)
+    run_sigma(ctx, ["-in", outs[1], "-max", 4000 if q else 40000, "-deniable", 5 if q else 4], b)
     tr2 = os.path.join(ctx.tmp, "sigma_ctx_calls_sim.ndjson")
-    ctx.run_vh("sigma", ["-in", outs[2], "-max", 800 if q else 12000, "-deniable", 2, "-trace", tr2, "-tracemax", 60 if q else 600], binary=b)
-    ctx.run_vh("sigma", ["-in", outs[3], "-max", 800 if q else 12000, "-deniable", 2], binary=b)
-    ctx.run_vh("sigma", ["-in", outs[4], "-max", 1500 if q else 8000, "-deniable", 1], binary=b)
-    ctx.run_vh("sigma", ["-in", outs[5], "-deniable", 0], binary=b)
-    ctx.run_vh("sigma", ["-in", outs[6], "-max", 1500 if q else 12000, "-deniable", 2], binary=b)
-    ctx.run_vh("sigma", ["-in", outs[7], "-deniable", 3], binary=b)
-    ctx.run_vh("sigma", ["-in", outs[8], "-max", 1500 if q else 8000, "-deniable", 4], binary=b)
+    run_sigma(ctx, ["-in", outs[2], "-max", 800 if q else 12000, "-deniable", 2, "-trace", tr2, "-tracemax", 60 if q else 600], b)
+    run_sigma(ctx, ["-in", outs[3], "-max", 800 if q else 12000, "-deniable", 2], b)
+    run_sigma(ctx, ["-in", outs[4], "-max", 1500 if q else 8000, "-deniable", 1], b)
+    run_sigma(ctx, ["-in", outs[5], "-deniable", 0], b)
+    run_sigma(ctx, ["-in", outs[6], "-max", 1500 if q else 12000, "-deniable", 2], b)
+    run_sigma(ctx, ["-in", outs[7], "-deniable", 3], b)
+    run_sigma(ctx, ["-in", outs[8], "-max", 1500 if q else 8000, "-deniable", 4], b)
     for bh in outs[9:]:
-        ctx.run_vh("sigma", ["-in", bh, "-max", 12000, "-deniable", 3], binary=b)
+        run_sigma(ctx, ["-in", bh, "-max", 12000, "-deniable", 3], b)
     if ctx.cov["skipped"].get("deniable-session-timeout"):
         raise Broken("%d deniable clique sessions did not terminate within 5 minutes" % ctx.cov["skipped"]["deniable-session-timeout"])
     # code -> spec: the recorded Put / Get / PubRand / PriRand calls of the real provers and verifiers are behaviours of
